@@ -25,10 +25,11 @@ def main():
             os.makedirs(os.path.join(out, b), exist_ok=True)
             jobs.append(['gcc', '-std=gnu11', '--coverage', '-fprofile-update=atomic', '-I' + os.path.join(REPO, 'include'), '-I' + os.path.join(REPO, 'src'), '-fno-pie', '-g1', '-w'] + simbuild.SEAMS + fl +
                         ['-c', os.path.join(REPO, 'src', 'static.c'), '-o', os.path.join(out, b, 'mi.o')])
+            jobs.append(['gcc', '-std=gnu11', '-I' + os.path.join(REPO, 'include'), '-I' + os.path.join(REPO, 'src'), '-fno-pie', '-g1', '-w'] + simbuild.SEAMS + fl + ['-c', os.path.join(SIM, 'peek.c'), '-o', os.path.join(out, 'peek-%s.o' % b)])
             for s in simbuild.SIM_SRCS_PER_BUILD: jobs.append(cxx + ['-DSIM_BUILD="%s"' % b, '-c', os.path.join(SIM, s), '-o', os.path.join(out, s.replace('.cc', '-%s.o' % b))])
         with cf.ThreadPoolExecutor(16) as ex: list(ex.map(sh, jobs))
         for b in simbuild.BUILDS:
-            objs = [os.path.join(out, s.replace('.cc', '.o')) for s in simbuild.SIM_SRCS_COMMON] + [os.path.join(out, s.replace('.cc', '-%s.o' % b)) for s in simbuild.SIM_SRCS_PER_BUILD] + [os.path.join(out, b, 'mi.o')]
+            objs = [os.path.join(out, s.replace('.cc', '.o')) for s in simbuild.SIM_SRCS_COMMON] + [os.path.join(out, s.replace('.cc', '-%s.o' % b)) for s in simbuild.SIM_SRCS_PER_BUILD] + [os.path.join(out, b, 'mi.o'), os.path.join(out, 'peek-%s.o' % b)]
             sh(['g++', '-no-pie', '--coverage', '-Wl,-u,__gcov_dump', '-o', os.path.join(out, 'simrun-' + b)] + objs + ['-lpthread'])
         fams = sorted({f[0] for p in props.PROPS.values() for f in p['families']})
         runs = [(b, f, 1000 + i) for b in simbuild.BUILDS for f in fams for i in range(n)]
